@@ -13,11 +13,14 @@ from props import stmtctx  # noqa: E402
 ct = float(sys.argv[1]) if len(sys.argv) > 1 else 150
 rounds = int(sys.argv[2]) if len(sys.argv) > 2 else 5
 ctxs = stmtctx.select("thorough", 0, 0)
+only = set(json.load(open(sys.argv[3]))) if len(sys.argv) > 3 else None
 obls = {}
 for d, sql, name, pre, post in ctxs:
     si = [c[1] for c in stmtctx.CORPUS].index(sql)
     key = f"{d or 'base'}:{si}:{name}"
-    obls[key] = Obl(key=key, harness="h_stmt.py", params={"dialect": d, "pre": pre, "post": post, "minlen": 0, "maxlen": 1, "mode": "both"},
+    if only is not None and key not in only:
+        continue
+    obls[key] = Obl(key=key, harness="h_stmt.py", params={"dialect": d, "pre": pre, "post": post, "minlen": 0, "maxlen": 1, "mode": "both", "exclude_number_dot": True},
                     cond_timeout=ct, path_timeout=60, twin=None)
 findings, spurious, final = [], [], {}
 todo = list(obls.values())
@@ -42,5 +45,5 @@ for rnd in range(rounds):
             o.params.setdefault("exclude_exact", []).append(args.get("h"))
             nxt.append(o)
     todo = nxt
-    json.dump({"findings": findings, "spurious": spurious, "final": final}, open("/tmp/stmt_sweep.json", "w"), indent=1)
+    json.dump({"findings": findings, "spurious": spurious, "final": final}, open(os.environ.get("SWEEP_OUT", "/tmp/stmt_sweep.json"), "w"), indent=1)
 print("done", len(findings), "findings", len(spurious), "spurious", {v: list(final.values()).count(v) for v in set(final.values())})
